@@ -169,16 +169,18 @@ package common
 
 // representation invariant: well-formed port sets, no sharing between protocols, AllowAll has an empty map,
 // protocol keys are TCP/UDP/SCTP and numeric ports lie in 1..65535 (input validity V of DESIGN section 5)
-//@ pred wfCS(c *ConnectionSet) = c != nil && allocated(c) && c.AllowedProtocols != nil && allocated(c.AllowedProtocols)
+//@ opaque pred wfCS(c *ConnectionSet) = c != nil && allocated(c) && c.AllowedProtocols != nil && allocated(c.AllowedProtocols)
 //@     && (forall q v1.Protocol :: {q in c.AllowedProtocols} q in c.AllowedProtocols ==>
 //@             wfPS(c.AllowedProtocols[q]) && isProto(q) && inRange(c.AllowedProtocols[q]))
 //@     && (forall q v1.Protocol, r v1.Protocol :: {q in c.AllowedProtocols, r in c.AllowedProtocols}
 //@             q in c.AllowedProtocols && r in c.AllowedProtocols && q != r ==> sepPS(c.AllowedProtocols[q], c.AllowedProtocols[r]))
 //@     && (c.AllowAll ==> (forall q v1.Protocol :: {q in c.AllowedProtocols} !(q in c.AllowedProtocols)))
 
-//@ pred sepCS(a *ConnectionSet, b *ConnectionSet) = a != b && a.AllowedProtocols != b.AllowedProtocols
+//@ opaque pred sep1CS(a *ConnectionSet, b *ConnectionSet) = a != b && a.AllowedProtocols != b.AllowedProtocols
 //@     && (forall q v1.Protocol, r v1.Protocol :: {q in a.AllowedProtocols, r in b.AllowedProtocols}
 //@             q in a.AllowedProtocols && r in b.AllowedProtocols ==> sepPS(a.AllowedProtocols[q], b.AllowedProtocols[r]))
+// separation is tracked in both argument orders so that callers outside this package never have to unfold it
+//@ pred sepCS(a *ConnectionSet, b *ConnectionSet) = sep1CS(a, b) && sep1CS(b, a)
 
 // denotation: the set of (protocol, port) points
 //@ fun ptsP(c *ConnectionSet, q v1.Protocol, n int) bool = q in c.AllowedProtocols && iset(c.AllowedProtocols[q].Ports)[n]
@@ -199,14 +201,24 @@ package common
 //@     && (forall q v1.Protocol :: {q in t.AllowedProtocols} {t.AllowedProtocols[q]} q in t.AllowedProtocols ==>
 //@             (t.AllowedProtocols[q] == old(t.AllowedProtocols[q]) && samePS(t.AllowedProtocols[q])))
 // frame, stated as a postcondition: a well-formed set that shares nothing with the updated one is untouched
-//@ pred othersKept(conn *ConnectionSet) = forall t *ConnectionSet :: {t.AllowedProtocols}
-//@     (old(wfCS(t)) && old(sepCS(conn, t))) ==> (sameCS(t) && wfCS(t) && sepCS(conn, t))
+//@ pred othersKept(conn *ConnectionSet) = (forall t *ConnectionSet :: {t.AllowedProtocols} {old(wfCS(t))} {old(sep1CS(conn, t))}
+//@     (old(wfCS(t)) && old(sepCS(conn, t))) ==> (sameCS(t) && wfCS(t) && sepCS(conn, t)))
+//@   && (forall t *ConnectionSet, u *ConnectionSet :: {old(sep1CS(t, u))}
+//@     (old(wfCS(t)) && old(wfCS(u)) && old(sepCS(conn, t)) && old(sepCS(conn, u)) && old(sep1CS(t, u))) ==> sep1CS(t, u))
+
+// after an update, every port set of the updated connection set is one it already held under the same key, or a fresh one
+//@ pred entriesOldOrFresh(conn *ConnectionSet) = forall q v1.Protocol :: {q in conn.AllowedProtocols} {conn.AllowedProtocols[q]} q in conn.AllowedProtocols ==>
+//@     ((old(q in conn.AllowedProtocols) && conn.AllowedProtocols[q] == old(conn.AllowedProtocols[q])) || freshPS(conn.AllowedProtocols[q]))
 
 // functions that only allocate: every existing well-formed set is untouched
-//@ pred allKept() = forall t *ConnectionSet :: {t.AllowedProtocols} old(wfCS(t)) ==> (sameCS(t) && wfCS(t))
+//@ pred allKept() = (forall t *ConnectionSet :: {t.AllowedProtocols} {old(wfCS(t))} old(wfCS(t)) ==> (sameCS(t) && wfCS(t)))
+//@   && (forall t *ConnectionSet, u *ConnectionSet :: {old(sep1CS(t, u))} (old(wfCS(t)) && old(wfCS(u)) && old(sep1CS(t, u))) ==> sep1CS(t, u))
+// a freshly built set shares nothing with any existing well-formed set
+//@ pred freshSep(res *ConnectionSet) = forall t *ConnectionSet :: {t.AllowedProtocols} {old(wfCS(t))} old(wfCS(t)) ==> sepCS(res, t)
 
 //@ func MakeConnectionSet
 //@   ensures [C11,C02] kept: allKept()
+//@   ensures [C11,C02] freshsep: freshSep(res)
 //@   ensures [C11,C05] wf: wfCS(res) && fresh(res) && fresh(res.AllowedProtocols)
 //@   ensures [C11,C05] val: res.AllowAll == all && (forall q v1.Protocol :: {q in res.AllowedProtocols} !(q in res.AllowedProtocols))
 
@@ -237,6 +249,8 @@ package common
 //@   ensures [C11] newexcl: (!old(protocol in conn.AllowedProtocols) && protocol in conn.AllowedProtocols) ==>
 //@         dom(conn.AllowedProtocols[protocol].ExcludedNamedPorts) == dom(ports.ExcludedNamedPorts)
 //@   ensures [C11,C02] others: othersKept(conn)
+//@   ensures [C11,C02] entries: entriesOldOrFresh(conn)
+//@   ensures [C11,C02] apmap: conn.AllowedProtocols == old(conn.AllowedProtocols) || fresh(conn.AllowedProtocols)
 
 //@ func GetAllTCPConnections
 //@   ensures [C11] wf: wfCS(res) && fresh(res) && fresh(res.AllowedProtocols) && !res.AllowAll
@@ -244,6 +258,7 @@ package common
 //@   ensures [C11,C10] pts: forall q v1.Protocol, n int :: {iset(res.AllowedProtocols[q].Ports)[n]} ptsP(res, q, n) == (q == "TCP" && 1 <= n && n <= 65535)
 //@   ensures [C11] npts: forall q v1.Protocol, s string :: {s in res.AllowedProtocols[q].NamedPorts} !npts(res, q, s)
 //@   ensures [C11,C02] kept: allKept()
+//@   ensures [C11,C02] freshsep: freshSep(res)
 
 //@ func (*ConnectionSet).Copy
 //@   requires wfCS(conn)
@@ -255,6 +270,7 @@ package common
 //@          && dom(res.AllowedProtocols[q].NamedPorts) == dom(conn.AllowedProtocols[q].NamedPorts)
 //@          && dom(res.AllowedProtocols[q].ExcludedNamedPorts) == dom(conn.AllowedProtocols[q].ExcludedNamedPorts))
 //@   ensures [C11,C02] kept: allKept()
+//@   ensures [C11,C02] freshsep: freshSep(res)
 //@   loop 1:
 //@     invariant sub: forall q v1.Protocol :: {seen(q)} seen(q) ==> q in conn.AllowedProtocols
 //@     invariant kept: allKept()
@@ -333,6 +349,8 @@ package common
 //@   ensures [C11,C05] collapse: (old(!conn.AllowAll && allExplicit(conn))) ==> (conn.AllowAll && fresh(conn.AllowedProtocols))
 //@   ensures [C11,C05] keep: !(old(!conn.AllowAll && allExplicit(conn))) ==> (conn.AllowAll == old(conn.AllowAll) && conn.AllowedProtocols == old(conn.AllowedProtocols))
 //@   ensures [C11,C02] others: othersKept(conn)
+//@   ensures [C11,C02] entries: entriesOldOrFresh(conn)
+//@   ensures [C11,C02] apmap: conn.AllowedProtocols == old(conn.AllowedProtocols) || fresh(conn.AllowedProtocols)
 
 //@ func (*ConnectionSet).addAllConns
 //@   requires wfCS(conn) && !conn.AllowAll && (forall q v1.Protocol :: {q in conn.AllowedProtocols} !(q in conn.AllowedProtocols))
@@ -342,9 +360,12 @@ package common
 //@   ensures [C11] full: forall q v1.Protocol :: {q in conn.AllowedProtocols} q in conn.AllowedProtocols ==>
 //@         (freshPS(conn.AllowedProtocols[q]) && isAllPS(conn.AllowedProtocols[q]) && iset(conn.AllowedProtocols[q].Ports)[1])
 //@   ensures [C11,C02] others: othersKept(conn)
+//@   ensures [C11,C02] entries: entriesOldOrFresh(conn)
+//@   ensures [C11,C02] apmap: conn.AllowedProtocols == old(conn.AllowedProtocols) || fresh(conn.AllowedProtocols)
 //@   loop 1:
 //@     invariant idx: 0 - 1 <= rangeindex && rangeindex < 3
 //@     invariant others: othersKept(conn)
+//@     invariant entries: entriesOldOrFresh(conn)
 //@     invariant wf: wfCS(conn) && !conn.AllowAll
 //@     invariant dom: forall q v1.Protocol :: {q in conn.AllowedProtocols} (q in conn.AllowedProtocols) ==
 //@         ((q == "TCP" && rangeindex >= 0) || (q == "UDP" && rangeindex >= 1) || (q == "SCTP" && rangeindex >= 2))
@@ -363,9 +384,12 @@ package common
 //@         npts(conn, q, s) == (old(npts(conn, q, s)) || npts(other, q, s)))
 //@   ensures [C11,C05] canon: old(canonCS(conn)) ==> canonCS(conn)
 //@   ensures [C11,C02] others: othersKept(conn)
+//@   ensures [C11,C02] entries: entriesOldOrFresh(conn)
+//@   ensures [C11,C02] apmap: conn.AllowedProtocols == old(conn.AllowedProtocols) || fresh(conn.AllowedProtocols)
 //@   loop 1:
 //@     invariant wf: wfCS(conn) && sepCS(conn, other) && !conn.AllowAll
 //@     invariant others: othersKept(conn)
+//@     invariant entries: entriesOldOrFresh(conn)
 //@     invariant sub: forall q v1.Protocol :: {seen(q)} seen(q) ==> q in conn.AllowedProtocols
 //@     invariant done: forall q v1.Protocol, n int :: {iset(conn.AllowedProtocols[q].Ports)[n]} (q in conn.AllowedProtocols && seen(q)) ==>
 //@         iset(conn.AllowedProtocols[q].Ports)[n] == (old(iset(conn.AllowedProtocols[q].Ports)[n]) || ptsP(other, q, n))
@@ -377,6 +401,7 @@ package common
 //@   loop 2:
 //@     invariant wf: wfCS(conn) && sepCS(conn, other) && !conn.AllowAll && conn.AllowedProtocols == old(conn.AllowedProtocols)
 //@     invariant others: othersKept(conn)
+//@     invariant entries: entriesOldOrFresh(conn)
 //@     invariant sub: forall q v1.Protocol :: {seen(q)} seen(q) ==> q in other.AllowedProtocols
 //@     invariant keep: forall q v1.Protocol :: {q in conn.AllowedProtocols} old(q in conn.AllowedProtocols) ==>
 //@         (q in conn.AllowedProtocols && conn.AllowedProtocols[q] == old(conn.AllowedProtocols[q]))
@@ -399,8 +424,11 @@ package common
 //@         pts(conn, q, n) == (old(pts(conn, q, n)) && pts(other, q, n))
 //@   ensures [C11,C05] canon: (old(canonCS(conn)) && canonCS(other)) ==> canonCS(conn)
 //@   ensures [C11,C02] others: othersKept(conn)
+//@   ensures [C11,C02] entries: entriesOldOrFresh(conn)
+//@   ensures [C11,C02] apmap: conn.AllowedProtocols == old(conn.AllowedProtocols) || fresh(conn.AllowedProtocols)
 //@   loop 1:
 //@     invariant others: othersKept(conn)
+//@     invariant entries: entriesOldOrFresh(conn)
 //@     invariant wf: wfCS(conn) && sepCS(conn, other) && !conn.AllowAll && conn.AllowedProtocols == old(conn.AllowedProtocols)
 //@     invariant sub: forall q v1.Protocol :: {seen(q)} seen(q) ==> q in other.AllowedProtocols
 //@     invariant dom: forall q v1.Protocol :: {q in conn.AllowedProtocols} (q in conn.AllowedProtocols) == seen(q)
@@ -410,6 +438,7 @@ package common
 //@          && dom(conn.AllowedProtocols[q].ExcludedNamedPorts) == dom(other.AllowedProtocols[q].ExcludedNamedPorts))
 //@   loop 2:
 //@     invariant others: othersKept(conn)
+//@     invariant entries: entriesOldOrFresh(conn)
 //@     invariant wf: wfCS(conn) && sepCS(conn, other) && !conn.AllowAll && !old(conn.AllowAll) && conn.AllowedProtocols == old(conn.AllowedProtocols)
 //@     invariant sub: forall q v1.Protocol :: {seen(q)} seen(q) ==> old(q in conn.AllowedProtocols)
 //@     invariant shrink: forall q v1.Protocol :: {q in conn.AllowedProtocols} q in conn.AllowedProtocols ==>
@@ -430,9 +459,12 @@ package common
 //@   ensures [C11,C02] pts: forall q v1.Protocol, n int :: {iset(conn.AllowedProtocols[q].Ports)[n]} {old(iset(conn.AllowedProtocols[q].Ports)[n])} {iset(other.AllowedProtocols[q].Ports)[n]}
 //@         pts(conn, q, n) == (old(pts(conn, q, n)) && !pts(other, q, n))
 //@   ensures [C11,C02] others: othersKept(conn)
+//@   ensures [C11,C02] entries: entriesOldOrFresh(conn)
+//@   ensures [C11,C02] apmap: conn.AllowedProtocols == old(conn.AllowedProtocols) || fresh(conn.AllowedProtocols)
 //@   loop 1:
 //@     invariant wf: wfCS(conn) && sepCS(conn, other) && !conn.AllowAll
 //@     invariant others: othersKept(conn)
+//@     invariant entries: entriesOldOrFresh(conn)
 //@     invariant sub: forall q v1.Protocol :: {seen(q)} seen(q) ==> pre(q in conn.AllowedProtocols)
 //@     invariant shrink: forall q v1.Protocol :: {q in conn.AllowedProtocols} q in conn.AllowedProtocols ==>
 //@         (pre(q in conn.AllowedProtocols) && conn.AllowedProtocols[q] == pre(conn.AllowedProtocols[q]))
